@@ -1730,6 +1730,45 @@ theorem C10_noblank (W : Nat) (hW : 7 < W) (L : Str) (hcl : Clean L) (hnb : stri
           · exact hret x h
           · exact (hdl x h).1.nonblank
 
+/-- **C10_data_stays_data** (the converse of `C10_comment_stays_comment`) — for every data line of the class `LineOK`
+    (in particular one whose first word merely begins with `c`/`C` in columns 1-5: `c14`, `cf4`, `cut:n`, `ctme` …):
+    no line `_wrap_line` returns is a comment card, the lines contribute no comment-card text, and their data words are
+    exactly the words of the source line.  (`C10_start` gives the first half for the first line only — its
+    continuation clause allows "indented or comment card"; here every continuation line is indented.) -/
+theorem C10_data_stays_data (W : Nat) (hW : 7 < W) (L : Str) (h : LineOK W L) (hd : isCommentCard L = false) :
+    (∀ x ∈ wrapLine L W [] (blanks Gen.blankSpaceContinue), isCommentCard x = false) ∧
+    (obsLines (wrapLine L W [] (blanks Gen.blankSpaceContinue))).1 = Spec.File.words (splitDollar L).1 ∧
+    (obsLines (wrapLine L W [] (blanks Gen.blankSpaceContinue))).2.2 = [] := by
+  have h5 : blanks Gen.blankSpaceContinue = blanks 5 := rfl
+  rw [h5]
+  have hok := h.ok; simp only [hd, Bool.false_eq_true, if_false] at hok
+  obtain ⟨o, os, he, _, hdo, hos, hobs⟩ := wrapLine_data W hW L h.clean h.nonblank hd hok
+  rw [he, hobs]
+  refine ⟨?_, by simp [cw, hd], by simp [ccm, hd]⟩
+  intro x hx
+  simp only [List.mem_cons] at hx
+  rcases hx with rfl | hx
+  · exact hdo.notcomment
+  · exact (hos x hx).not_comment
+
+/-- `c14 -1.0 -0.9 -0.8 -0.7 -0.6 -0.5 -0.4 -0.3 -0.2 -0.1 0.0 0.1 0.2 0.3 0.4 0.5 0.6 0.7 0.8 0.9 1.0` (100 columns): the cosine bins of tally 14 -/
+def exC14 : Str := ['c', '1', '4', ' ', '-', '1', '.', '0', ' ', '-', '0', '.', '9', ' ', '-', '0', '.', '8', ' ', '-', '0', '.', '7', ' ', '-', '0', '.', '6', ' ', '-', '0', '.', '5', ' ', '-', '0', '.', '4', ' ', '-', '0', '.', '3', ' ', '-', '0', '.', '2', ' ', '-', '0', '.', '1', ' ', '0', '.', '0', ' ', '0', '.', '1', ' ', '0', '.', '2', ' ', '0', '.', '3', ' ', '0', '.', '4', ' ', '0', '.', '5', ' ', '0', '.', '6', ' ', '0', '.', '7', ' ', '0', '.', '8', ' ', '0', '.', '9', ' ', '1', '.', '0']
+/-- `  C14 -1.0 -0.9 -0.8 -0.7 -0.6 -0.5 -0.4 -0.3 -0.2 -0.1 0.0 0.1 0.2 0.3 0.4 0.5 0.6 0.7 0.8 0.9 1.0 $ cosine bins` -/
+def exC14b : Str := [' ', ' ', 'C', '1', '4', ' ', '-', '1', '.', '0', ' ', '-', '0', '.', '9', ' ', '-', '0', '.', '8', ' ', '-', '0', '.', '7', ' ', '-', '0', '.', '6', ' ', '-', '0', '.', '5', ' ', '-', '0', '.', '4', ' ', '-', '0', '.', '3', ' ', '-', '0', '.', '2', ' ', '-', '0', '.', '1', ' ', '0', '.', '0', ' ', '0', '.', '1', ' ', '0', '.', '2', ' ', '0', '.', '3', ' ', '0', '.', '4', ' ', '0', '.', '5', ' ', '0', '.', '6', ' ', '0', '.', '7', ' ', '0', '.', '8', ' ', '0', '.', '9', ' ', '1', '.', '0', ' ', '$', ' ', 'c', 'o', 's', 'i', 'n', 'e', ' ', 'b', 'i', 'n', 's']
+
+theorem exC14_ok : LineOK 80 exC14 ∧ LineOK 80 exC14b :=
+  ⟨lineOK_data _ _ (by decide) (by decide) (by decide) ⟨by decide, by decide, by decide, by decide⟩,
+   lineOK_data _ _ (by decide) (by decide) (by decide) ⟨by decide, by decide, by decide, by decide⟩⟩
+
+/-- non-vacuity on the look-alike family: both lines are data for MCNP (`isCommentCard = false`), are longer than 80
+    columns, are in the class, and so none of the lines they are wrapped into is a comment card -/
+example : isCommentCard exC14 = false ∧ isCommentCard exC14b = false ∧ 80 < exC14.length ∧ 80 < exC14b.length := by decide
+
+example : (∀ x ∈ wrapLine exC14 80 [] (blanks Gen.blankSpaceContinue), isCommentCard x = false) ∧
+    (∀ x ∈ wrapLine exC14b 80 [] (blanks Gen.blankSpaceContinue), isCommentCard x = false) :=
+  ⟨(C10_data_stays_data 80 (by omega) exC14 exC14_ok.1 (by decide)).1,
+   (C10_data_stays_data 80 (by omega) exC14b exC14_ok.2 (by decide)).1⟩
+
 /-! ## 10. without the class: refuted by the code (finding C10-F1) -/
 
 /-- `1 0 ` followed by a word of 77 `h` -/
